@@ -385,7 +385,7 @@ func authFor(w *world.World, client string) world.Auth {
 func c14Refresh(x *c14Ctx, w *world.World, out *world.Out, client string) {
 	rt := out.S("refresh_token")
 	for depth := 0; depth < 2 && rt != ""; depth++ {
-		time.Sleep(time.Duration(1+depth) * time.Second)
+		world.Sleep(time.Duration(1+depth) * time.Second)
 		o := w.Token(url.Values{"grant_type": {"refresh_token"}, "refresh_token": {rt}}, authFor(w, client))
 		x.hist = append(x.hist, fmt.Sprintf("refresh %d: %s", depth, world.ErrDetail(o.Err)))
 		if o.Err != nil {
